@@ -219,3 +219,16 @@ package l1infotreesync
 //@   ensures[failed-decode-adds-nothing] result != nil ==> len(b.Events) == old(len(b.Events))
 //@   ensures[one-event-per-log] result == nil ==> len(b.Events) == old(len(b.Events)) + 1 && forall(k, 0, old(len(b.Events)), b.Events[k] == old(b.Events[k]))
 //@   ensures[the-verification-carries-the-logs-rollup-and-exit-root] result == nil ==> typeIs(b.Events[len(b.Events) - 1], Event) && unbox(b.Events[len(b.Events) - 1], Event).VerifyBatches != nil && unbox(b.Events[len(b.Events) - 1], Event).UpdateL1InfoTree == nil && unbox(b.Events[len(b.Events) - 1], Event).VerifyBatches.BlockPosition == l.Index && unbox(b.Events[len(b.Events) - 1], Event).VerifyBatches.RollupID == parsedVerifyTA.RollupID && unbox(b.Events[len(b.Events) - 1], Event).VerifyBatches.NumBatch == parsedVerifyTA.NumBatch && unbox(b.Events[len(b.Events) - 1], Event).VerifyBatches.ExitRoot == hashOf(parsedVerifyTA.ExitRoot)
+
+// ---- proofs served by the syncer's entry points (C08, C09, C12; their fail-stop behaviour is the schema above): each
+// asks the right tree for the right position - the rollup exit tree keeps network n at position n-1 and the mainnet
+// (network 0) has no place in it - and passes the tree's answer through
+//@ func (s *L1InfoTreeSync) GetRollupExitTreeMerkleProof
+//@   props C08 C12
+//@   requires s != nil && s.processor != nil && s.processor.rollupExitTree != nil && s.processor.rollupExitTree.Tree != nil && len(s.processor.rollupExitTree.Tree.zeroHashes) == 33
+//@   ensures[mainnet-has-no-position] (!old(s.processor.halted) && networkID == 0) ==> result1 == nil
+//@   assert call:GetProof arg0 == s.processor.rollupExitTree.Tree && arg2 + 1 == networkID && arg3 == root
+//@ func (s *L1InfoTreeSync) GetL1InfoTreeMerkleProofFromIndexToRoot
+//@   props C08 C09 C12
+//@   requires s != nil && s.processor != nil && s.processor.l1InfoTree != nil && s.processor.l1InfoTree.Tree != nil && len(s.processor.l1InfoTree.Tree.zeroHashes) == 33
+//@   ensures[proof-of-that-index-to-that-root] (!old(s.processor.halted) && result1 == nil && forall(h, 1, 33, rhtHas(s.processor.l1InfoTree.Tree)[desc(rhtL(s.processor.l1InfoTree.Tree), rhtR(s.processor.l1InfoTree.Tree), root, index, h)])) ==> foldUp(desc(rhtL(s.processor.l1InfoTree.Tree), rhtR(s.processor.l1InfoTree.Tree), root, index, 0), result0, index, 32) == root
